@@ -694,3 +694,29 @@ Proof.
       apply Nat.mul_le_mono; [lia|]. etransitivity; [|apply one_plus_pow]. lia.
 Qed.
 Print Assumptions bnd_poly.
+
+(* the certificate is hereditary: every sub-expression (look-around bodies included) of a certified expression is
+   certified, so the bound holds for the search started at ANY sub-expression at ANY position - also inside a branch
+   that fails later *)
+Fixpoint subexprs (r : re) : list re :=
+  r :: match r with
+       | Seq a b | Alt a b => subexprs a ++ subexprs b
+       | Rep _ _ _ r' | Grp _ r' | Look _ r' => subexprs r'
+       | _ => []
+       end.
+
+Lemma cert_sub r : cert r = true -> forall r', In r' (subexprs r) -> cert r' = true.
+Proof.
+  induction r as [|cs|a IHa b IHb|a IHa b IHb|g mn mx r IH|neg r IH|neg cs| | | | |g r IH]; intros Hc r' Hin; cbn [subexprs] in Hin;
+    destruct Hin as [<-|Hin]; try exact Hc; try contradiction.
+  - cbn [cert] in Hc. apply andb_true_iff in Hc as [Ha Hb]. apply in_app_or in Hin as [H|H]; [apply IHa | apply IHb]; assumption.
+  - cbn [cert] in Hc. apply andb_true_iff in Hc as [Ha Hb]. apply in_app_or in Hin as [H|H]; [apply IHa | apply IHb]; assumption.
+  - cbn [cert] in Hc. destruct mx as [m|]; [apply IH; assumption|]. apply andb_true_iff in Hc as [Hc _]. apply IH; assumption.
+  - cbn [cert] in Hc. apply IH; assumption.
+  - cbn [cert] in Hc. apply IH; assumption.
+Qed.
+
+Corollary cert_bound_everywhere r : cert r = true -> forall r', In r' (subexprs r) ->
+  forall st c, length (ends r' st c) <= (length (after st) + 2) ^ deg r'.
+Proof. intros Hc r' Hin st c. etransitivity; [apply cert_bound; eapply cert_sub; eassumption | apply bnd_poly]. Qed.
+Print Assumptions cert_bound_everywhere.
